@@ -30,6 +30,7 @@ type opRec struct {
 	entry     iface.IPFSLogEntry
 	err       error
 	log       *ipfslog.IPFSLog
+	unstored  bool // the returned entry's block was not in the store at the instant the call returned
 }
 
 type w13 struct {
@@ -126,6 +127,7 @@ func (w *w13) rec(thread int, r opRec) { w.recs[thread] = append(w.recs[thread],
 func (w *w13) appendOp(thread int, l *ipfslog.IPFSLog, payload string) {
 	r := opRec{name: "append:" + payload, call: zvsync.Now(), log: l}
 	r.entry, r.err = l.Append(world.Ctx, []byte(payload), &ipfslog.AppendOptions{PointerCount: 4})
+	r.unstored = r.err == nil && r.entry != nil && !w.st.Has(r.entry.GetHash()) // no scheduling point since the return
 	r.ret = zvsync.Now()
 	w.rec(thread, r)
 }
